@@ -140,12 +140,20 @@ func canBind(udp bool, port int) bool {
 // hbFrame: a valid v2 heartbeat frame from (sys, comp)
 func hbFrameBytes(sys, comp byte, seq byte, autopilot common.MAV_AUTOPILOT) []byte {
 	var buf strings.Builder
-	w := &frame.Writer{ByteWriter: &sbWriter{&buf}, DialectRW: getDialectRW("common")}
-	w.Initialize() //nolint
-	fr := &frame.V2Frame{SequenceNumber: seq, SystemID: sys, ComponentID: comp,
-		Message: &common.MessageHeartbeat{Type: 1, Autopilot: autopilot, SystemStatus: 4, MavlinkVersion: 3}}
-	w.WriteFrame(fr) //nolint
-	return []byte(buf.String())
+	w := &frame.Writer{ByteWriter: &sbWriter{&buf}, DialectRW: getDialectRW("common"), OutVersion: frame.V2, OutSystemID: sys, OutComponentID: comp}
+	if err := w.Initialize(); err != nil {
+		panic(err)
+	}
+	if err := w.WriteMessage(&common.MessageHeartbeat{Type: 1, Autopilot: autopilot, SystemStatus: 4, MavlinkVersion: 3}); err != nil {
+		panic(err)
+	}
+	b := []byte(buf.String())
+	// sequence number, then the checksum again (CRC_EXTRA of HEARTBEAT = 50)
+	b[4] = seq
+	f := &frame.V2Frame{SequenceNumber: seq, SystemID: sys, ComponentID: comp, Message: &message.MessageRaw{ID: 0, Payload: b[10 : len(b)-2]}}
+	cs := f.GenerateChecksum(50)
+	b[len(b)-2], b[len(b)-1] = byte(cs), byte(cs>>8)
+	return b
 }
 
 type sbWriter struct{ b *strings.Builder }
